@@ -589,7 +589,18 @@ def oracle_conjugacy(n, classes, d):
     pos = 0
     for cl, ns in classes:
         ct = sorted(list(cl) + [1] * (n - sum(cl)), reverse=True)
-        if ns is None:
+        if ns is None and n > 8:
+            # too many permutations to enumerate: the class has n! / prod(k^m_k * m_k!) elements; they must be distinct and of the right cycle type
+            import math as _math
+            from collections import Counter as _Counter
+            size = _math.factorial(n)
+            for k_, m_ in _Counter(ct).items():
+                size //= (k_ ** m_) * _math.factorial(m_)
+            blk = gens[pos:pos + size]
+            if len(blk) != size or len({tuple(p) for p in blk}) != size or any(cycle_type(p) != ct for p in blk):
+                msgs.append(f"class {cl}: not exactly the {size} distinct permutations with cycle lengths {ct} ({len(blk)} listed, {len({tuple(p) for p in blk})} distinct)")
+            pos += size
+        elif ns is None:
             exp = sorted(p for p in itertools.permutations(range(n)) if cycle_type(p) == ct)
             blk = gens[pos:pos + len(exp)]
             if sorted(map(tuple, blk)) != exp:
@@ -911,6 +922,8 @@ def run(ctx):
             rng.shuffle(part)
             classes[tuple(part)] = rng.choice([None, None, 0, 1, 2, 3, -1])
         conj_inputs.append((n, list(classes.items())))
+    # more than 8 points (hash order of small integers in a Python set changes at 8): small classes of S_9, S_10
+    conj_inputs += [(9, [((2,), None)]), (9, [((3,), None)]), (10, [((2,), None)]), (9, [((2,), None), ((3,), 0)])]
     conj_inputs += [(0, [((1,), None)]), (3, [((2, 2), None)]), (3, [((0, 2), None)]), (4, [((-1, 2), None)]), (3, []),
                     (3, [((), None)]), (2, [((), 2)]), (4, [((2,), None), ((5,), None)])]
     orig_shuffle = pu.random.shuffle
